@@ -34,7 +34,9 @@ for p in "${ARGS[@]}"; do
   [ "${SENS_ALL:-0}" = "1" ] && props="C01 C02 C03 C04 C05 C06 C07 C08 C09 C10 C11 C12 C13 C14 C15 C16 C17 C18"
   git -C "$S/repo" checkout -q -- .
   if ! grep -v '^#' "$p" | git -C "$S/repo" apply - 2>/dev/null; then emit "$(printf '%-46s %s' "$name" 'PATCH-DOES-NOT-APPLY')"; continue; fi
-  if ! cargo build --offline --profile checked >/dev/null 2>&1 || ! cargo build --offline --release >/dev/null 2>&1; then
+  # the wrapping-arithmetic build is only used by the checks that quantify over both profiles
+  need_rel=0; case " $props " in *" C06 "*|*" C07 "*) need_rel=1;; esac
+  if ! cargo build --offline --profile checked >/dev/null 2>&1 || { [ $need_rel = 1 ] && ! cargo build --offline --release >/dev/null 2>&1; }; then
     emit "$(printf '%-46s %s' "$name" 'DOES-NOT-COMPILE')"; continue
   fi
   suite="-"
